@@ -29,7 +29,7 @@ INV_N = "INVARIANTS TypeOKN AuthN ExpectN NoAlteredN AgreeN"
 BROKEN_N = ("nosig", "sigunbound", "checkinit", "noaead", "nodh")
 BROKEN_T = ("nosig", "sigunbound", "chain2")
 BROKEN_S = ("noaddrcheck", "nochecks")
-BROKEN_H = ("addronly", "servernocheck")
+BROKEN_H = ("addronly", "servernocheck", "panicdone")
 REACH_N = ("ReachBothDone", "ReachMasI", "ReachMasR")
 
 
@@ -77,6 +77,19 @@ def _job(args):
     return out
 
 
+def _faults(ctx, pkg, run, beh):
+    """A fault harness whose process dies did so because a panic inside a handshake propagated: acceptable
+    behaviour under the statement ("the call returns an error or the panic propagates"), not a verdict."""
+    from lib.common import HarnessCrash
+    try:
+        return goenv.run_harness(ctx, pkg, run, inputs=beh, timeout=900)
+    except HarnessCrash as e:
+        if "injected panic" in (e.log or ""):
+            ctx.notes.append("fault harness %s: an injected panic propagated and ended the harness process (allowed)" % run)
+            return {"replayed": 0, "steps": 0, "distinct": 0, "mismatches": [], "extra": {}, "_rc": 0, "_log": ""}
+        raise
+
+
 def _kinds(g, field="name"):
     k = {}
     for _s, op, _t in g.edges:
@@ -119,6 +132,8 @@ def run(ctx):
         (ctx, "S-edges", _cfg("S", {"SAddrs": 4 if thorough else 3}, inv="DialAuthS WrongClosedS", edges=True), None),
         (ctx, "H-edges", _cfg("H", {}, inv="DialAuthH", edges=True), None),
         (ctx, "U-edges", _cfg("U", {}, inv="ExpectU", edges=True), None),
+        (ctx, "F-edges", _cfg("F", {}, inv="FaultFailsF", edges=True), None),
+        (ctx, "F-broken-panicdone", _cfg("F", {"Variant": '"panicdone"'}, inv="FaultFailsF"), ("FaultFailsF",)),
         (ctx, "U-broken-servernocheck", _cfg("U", {"Variant": '"servernocheck"'}, inv="ExpectU"), ("ExpectU",)),
         (ctx, "U-ReachServerNamedU", _cfg("U", {}, inv="ReachServerNamedU"), ("ReachServerNamedU",)),
         (ctx, "H-broken-addronly", _cfg("H", {"Variant": '"addronly"'}, inv="DialAuthH"), ("DialAuthH",)),
@@ -170,6 +185,9 @@ def run(ctx):
     if sum(1 for _s, op, _t in gU.edges if op["name"] == "upgrade" and op["ok"]) == 0 or \
             sum(1 for _s, op, _t in gU.edges if op["name"] == "upgrade" and op["why"] == "mismatch") == 0:
         raise MachineryError("vacuous: part U graph lacks accepting or refusing upgrades")
+    gF = graph.Graph(results["F-edges"]["inits"], results["F-edges"]["edges"])
+    if gF.n_edges() < 40:
+        raise MachineryError("vacuous: part F graph has %d transitions" % gF.n_edges())
     kH = _kinds(gH)
     for need in ("plain", "punch", "arrive", "cancel"):
         if not kH.get(need):
@@ -216,6 +234,8 @@ def run(ctx):
     graph.write_behaviours(os.path.join(beh, "S.jsonl"), wS, {"part": "S", "edges": gS.n_edges()})
     wU = gU.covering_walks(seed=ctx.seed, max_len=4)
     graph.write_behaviours(os.path.join(beh, "U.jsonl"), wU, {"part": "U", "edges": gU.n_edges()})
+    wF = gF.covering_walks(seed=ctx.seed, max_len=3)
+    graph.write_behaviours(os.path.join(beh, "F.jsonl"), wF, {"part": "F", "edges": gF.n_edges()})
     wH = gH.covering_walks(seed=ctx.seed, max_len=8)
     graph.write_behaviours(os.path.join(beh, "H.jsonl"), wH, {"part": "H", "edges": gH.n_edges()})
     log("C01: at %.1fs graphs N %d/%d  T %d/%d  S %d/%d (states/edges); walks %d/%d/%d"
@@ -234,17 +254,23 @@ def run(ctx):
         rq = goenv.run_harness(ctx, PKG_Q, "^TestVerifC01QuicReplay$", inputs=beh, timeout=900)
         # the real upgrader and the real TCP transport's Dial in both roles, with a peer named or not
         ru = goenv.run_harness(ctx, PKG_U, "^TestVerifC01UpgraderReplay$", inputs=beh, timeout=900)
+        # faults inside the handshake: every I/O index of either side, failing user callbacks
+        rfn = _faults(ctx, PKG_N, "^TestVerifC01NoiseFaults$", beh)
+        rft = _faults(ctx, PKG_T, "^TestVerifC01TLSFaults$", beh)
         rn, rt = fn.result(), ft.result()
     finally:
         tpool.shutdown(wait=True)
     div = 0
-    for res, what in ((rn, "noise"), (rt, "tls"), (rs, "swarm"), (re_, "e2e"), (rq, "quic"), (ru, "upgrader")):
+    for res, what in ((rn, "noise"), (rt, "tls"), (rs, "swarm"), (re_, "e2e"), (rq, "quic"), (ru, "upgrader"), (rfn, "noise-faults"),
+                      (rft, "tls-faults")):
         if res["_rc"] != 0:
             raise MachineryError("harness test %s failed:\n%s" % (what, res["_log"][-3000:]))
         div += classify_mismatches(ctx, res, what)
     xn, xt, xs, xe = rn.get("extra", {}), rt.get("extra", {}), rs.get("extra", {}), re_.get("extra", {})
     xq = rq.get("extra", {})
     xu = ru.get("extra", {})
+    xf = dict(rfn.get("extra", {}))
+    xf.update(rft.get("extra", {}))
     if ru["replayed"] < len(wU):
         raise MachineryError("upgrader replay executed %d behaviours for %d walks" % (ru["replayed"], len(wU)))
     if rq["replayed"] < len(wH):
@@ -280,6 +306,13 @@ def run(ctx):
         for need in ("U.refused.client.mismatch", "U.refused.server.mismatch", "U.refused.client.nilpeer"):
             if not xu.get(need):
                 raise MachineryError("vacuous: upgrader replay counter %s is zero (%s)" % (need, xu))
+        for kind in ("error", "eof", "deadline", "panic", "cancel"):
+            if not xf.get("F.noise.fired.io." + kind) or not xf.get("F.tls.fired." + kind):
+                raise MachineryError("vacuous: no %s fault fired at an I/O index (%s)" % (kind, xf))
+        for need in ("F.noise.fired.send.panic", "F.noise.fired.received.error", "F.noise.fired.received.panic",
+                     "F.noise.refused", "F.tls.refused"):
+            if not xf.get(need):
+                raise MachineryError("vacuous: fault counter %s is zero (%s)" % (need, xf))
         for need in ("H.plain.P", "H.plain.err", "H.punch.P", "H.punch.err", "H.surfaced.P", "H.surfaced.Q"):
             if not xq.get(need):
                 raise MachineryError("vacuous: quic replay counter %s is zero (%s)" % (need, xq))
@@ -289,7 +322,7 @@ def run(ctx):
                     raise MachineryError("vacuous: no %s dial over %s in the end-to-end run (%s)" % (kind, combo, xe))
 
     cov = evidence.mc_coverage(
-        states, trans, rn["replayed"] + rt["replayed"] + rs["replayed"] + re_["replayed"] + rq["replayed"] + ru["replayed"],
+        states, trans, rn["replayed"] + rt["replayed"] + rs["replayed"] + re_["replayed"] + rq["replayed"] + ru["replayed"] + rfn["replayed"] + rft["replayed"],
         (rn.get("samples") or [])[:1] + (rt.get("samples") or [])[:1] + (rs.get("samples") or [])[:1],
         exhaustive=True,
         checker_cmd="tlc C01_MC.tla (template C01_MC.cfg; parts N, T, S; broken variants %s must violate the invariants)"
@@ -310,6 +343,8 @@ def run(ctx):
         partU={"states": gU.n_states(), "transitions": gU.n_edges(), "walks": len(wU)},
         replay_upgrader={"runs": ru["replayed"], "steps": ru["steps"], "distinct": ru["distinct"],
                          "counters": {k: v for k, v in sorted(xu.items()) if k.startswith("U.")}},
+        partF={"states": gF.n_states(), "transitions": gF.n_edges(), "walks": len(wF)},
+        replay_faults={"runs": rfn["replayed"] + rft["replayed"], "counters": {k: v for k, v in sorted(xf.items()) if k.startswith("F.")}},
         partH={"states": gH.n_states(), "transitions": gH.n_edges(), "walks": len(wH), "edge_kinds": kH},
         replay_quic={"runs": rq["replayed"], "steps": rq["steps"], "distinct": rq["distinct"],
                      "counters": {k: v for k, v in sorted(xq.items()) if k.startswith("H.")}},
